@@ -335,6 +335,23 @@ def runFrames (cfg : Cfg) (h : Dispatch D R) (s : Server D) (c : Nat) : List Req
     let (s2, as) := runFrames cfg h s1 c rs
     (s2, a :: as)
 
+/-- `process_connection` since the deferred-frames repair (c0e7003): the loop stops at a frame that left the
+    connection `Blocked` (a BLPOP/BRPOP that blocked); the rest of the batch is kept in
+    `Connection::deferred_frames` and is executed — frame by frame through this same function, so through the
+    gate — at the head of the connection's next `process_connection`, after the client was unblocked.
+    Returns the frames kept back.  In the event language below a deferred execution is simply a later
+    `batch` of the same connection (`[batch c pre, wake c, batch c rest]`), so every theorem about histories
+    covers it; `deferral_needs_authentication` (Props/C17) shows that nothing is ever kept back for a
+    connection that has not authenticated (it cannot block). -/
+def runFramesD (cfg : Cfg) (h : Dispatch D R) (s : Server D) (c : Nat) : List Req → Server D × List (Reply D R) × List Req
+  | [] => (s, [], [])
+  | r :: rs =>
+    let (s1, a) := processConnectionFrame cfg h s c r
+    if stateOf s1.conns c = some .blocked then (s1, [a], rs)
+    else
+      let (s2, as, d) := runFramesD cfg h s1 c rs
+      (s2, a :: as, d)
+
 def isQuit (cfg : Cfg) : Req → Bool
   | .cmd name _ => cfg.normLoop name == QUIT
   | _ => false
